@@ -23,15 +23,20 @@ func HarnessC20BSPSizes() {
 		vndSetEnv("OTEL_BSP_MAX_EXPORT_BATCH_SIZE", b)
 	}
 	var opts []BatchSpanProcessorOption
-	switch vndChoice(4) {
+	optKind := vndChoice(5)
+	ov := int(vndI64())
+	switch optKind {
 	case 1:
-		opts = append(opts, WithMaxQueueSize(int(vndI64())))
+		opts = append(opts, WithMaxQueueSize(ov))
 		vndReach("option-queue")
 	case 2:
-		opts = append(opts, WithMaxExportBatchSize(int(vndI64())))
+		opts = append(opts, WithMaxExportBatchSize(ov))
 		vndReach("option-batch")
 	case 3:
 		opts = append(opts, WithMaxQueueSize(4), WithMaxExportBatchSize(2))
+	case 4:
+		// a batch size above the queue size, given explicitly: options win
+		opts = append(opts, WithMaxQueueSize(2), WithMaxExportBatchSize(6))
 	}
 	if len(opts) == 1 {
 		// arbitrary (also negative) but small enough to allocate
@@ -45,6 +50,17 @@ func HarnessC20BSPSizes() {
 	vndReach("constructed")
 	// (no panic is the claim; a size of zero has no documented meaning and is not judged)
 	vndAssert(cap(bsp.queue) >= 0 && cap(bsp.batch) >= 0, "processor-constructed")
+	// option over environment over default: a positive value given as an option is the value used
+	switch optKind {
+	case 1:
+		vndAssert(vndImplies(ov > 0, bsp.o.MaxQueueSize == ov), "option-over-environment")
+	case 2:
+		vndAssert(vndImplies(ov > 0, bsp.o.MaxExportBatchSize == ov), "option-over-environment")
+	case 3:
+		vndAssert(bsp.o.MaxQueueSize == 4 && bsp.o.MaxExportBatchSize == 2, "option-over-environment")
+	case 4:
+		vndAssert(bsp.o.MaxQueueSize == 2 && bsp.o.MaxExportBatchSize == 6, "option-over-environment")
+	}
 	sp.Shutdown(context.Background())
 }
 
